@@ -561,7 +561,7 @@ NameList findComponentCnUnitsNames(const ComponentConstPtr &component)
     std::vector<XmlDocPtr> mathDocs = multiRootXml(mathContent);
     for (const auto &doc : mathDocs) {
         auto rootNode = doc->rootNode();
-        if (rootNode->isMathmlElement("math")) {
+        if ((rootNode != nullptr) && rootNode->isMathmlElement("math")) {
             nodeUnitsNames.merge(findCnUnitsNames(rootNode));
         }
     }
@@ -597,7 +597,7 @@ void findAndReplaceComponentCnUnitsNames(const ComponentPtr &component, const st
     std::vector<XmlDocPtr> mathDocs = multiRootXml(mathContent);
     for (const auto &doc : mathDocs) {
         auto rootNode = doc->rootNode();
-        if (rootNode->isMathmlElement("math")) {
+        if ((rootNode != nullptr) && rootNode->isMathmlElement("math")) {
             auto originalMath = rootNode->convertToString();
             findAndReplaceCnUnitsNames(rootNode, oldName, newName);
             auto newMath = rootNode->convertToString();
